@@ -172,7 +172,15 @@ fn c11(seed: u64, case: u64, out: &Out) {
         "tasks_finished" => finished.load(Ordering::SeqCst), "tasks_cancelled" => cancelled.len(), "tasks_that_cancelled_themselves" => self_cancelled.load(Ordering::SeqCst), "stop_ms" => stop_ms};
     let fp = format!("{min}|{max}|{keep_alive_ms}|{ntasks}|{:?}", cancels);
     let nontrivial = CREATED.load(Ordering::SeqCst) >= 2 || !cancels.is_empty();
-    std::mem::forget(pool); // Drop would re-run stop() and assert; the verdict is already in
+    if viol.is_none() {
+        // a pool that stopped cleanly must also be droppable: Drop stops again and asserts the Stopped state and a running size of 0
+        if let Err(p) = std::panic::catch_unwind(std::panic::AssertUnwindSafe(move || drop(pool))) {
+            let msg = p.downcast_ref::<String>().cloned().or_else(|| p.downcast_ref::<&str>().map(|s| (*s).to_string())).unwrap_or_default();
+            viol = Some(("dropping-the-stopped-pool-panicked".into(), msg));
+        }
+    } else {
+        std::mem::forget(pool); // Drop would re-run stop() and assert; the verdict is already in
+    }
     match viol {
         Some((k, d)) => out.end(case, Verdict::Violated, &format!("C11/{k}{}", if cancels.is_empty() { "" } else { "/with-cancels" }), true, &fp, obs, &d),
         None => out.end(case, Verdict::Held, "", nontrivial, &fp, obs, ""),
